@@ -33,7 +33,7 @@ WithinLaw == kind = "within" =>
           sp == MaxI(s, 0)
           aw == a % 300  bw == b % 300
           lhs == 2 * Abs(aw * Pow2N(e + F) * Pow(10, sp) - bw * Pow(10, MaxI(0 - s, 0)) * Pow2N(F))
-          rhs == u2 * Pow2N(F) + 2 * k * Pow2N(ue + F) * Pow(10, sp)
+          rhs == u2 * Pow2N(F) * Pow(10, MaxI(0 - s, 0)) + 2 * k * Pow2N(ue + F) * Pow(10, sp)
       IN Within(BOfInt(aw), e, BOfInt(bw), s, u2, k, ue) = (lhs <= rhs)
 \* text layer
 Take(s, n) == SubSeq(s, 1, n)
